@@ -87,6 +87,22 @@ fn check_matrix(st: &mut Stats, prop: &str, line: &Value, variant: u32) -> Vec<S
     let a = set_of(&ont, &row_ids);
     let b = set_of(&ont, &col_ids);
     let flat: Vec<f32> = m.iter().flatten().copied().collect();
+    // growth (EXTRA): the Matrix view itself - rows() / cols() are the rows / columns of the spec's M, dim / len / is_empty
+    {
+        let mx = Matrix::new(r, c, &flat);
+        let rows: Vec<Vec<f32>> = mx.rows().map(|row| row.copied().collect()).collect();
+        let cols: Vec<Vec<f32>> = mx.cols().map(|col| col.copied().collect()).collect();
+        let want_cols: Vec<Vec<f32>> = (0..c).map(|j| (0..r).map(|i| m[i][j]).collect()).collect();
+        let rows_ok = if r * c == 0 { rows.iter().all(|x| x.is_empty()) } else { rows == *m };
+        let cols_ok = if r * c == 0 { cols.iter().all(|x| x.is_empty()) } else { cols == want_cols };
+        if !rows_ok || !cols_ok || mx.dim() != (r, c) || mx.len() != r * c || mx.is_empty() != (r * c == 0) {
+            let what = format!("Matrix::new({r}, {c}, {:?}): rows() = {:?}, cols() = {:?}, dim() = {:?}, len() = {}, is_empty() = {}", flat, rows, cols, mx.dim(), mx.len(), mx.is_empty());
+            if st.violations.iter().filter(|v| v.property == "EXTRA").count() < 2 {
+                st.violations.push(Violation { property: "EXTRA".into(), what: what.clone(), replay: json!({"cmd": "replay-set", "property": "EXTRA", "line": line, "diffs": [what]}) });
+            }
+        }
+        st.bump("extra_matrix_views", 1);
+    }
     for (name, comb) in COMBINERS {
         let want = rat(&line[name]);
         st.evaluations += 1;
